@@ -12,7 +12,7 @@ pub fn ms(x: u64) -> Duration {
 }
 
 pub const KNOWN: &[&str] = &["database", "stored_playlist", "playlist", "player", "mixer", "output", "options", "sticker", "update", "subscription", "message", "neighbor", "mount", "partition"];
-pub const UNKNOWN: &[&str] = &["foo_bar", "x-y", "Player", "PLAYER", "a_very_long_subsystem_name_that_no_mpd_version_knows_about_but_a_future_one_might_introduce_some_day_long_long_long_long_long_long_long_long_long_long_long_long_long_long_long_long_long_long_long_long_long", "queue"];
+pub const UNKNOWN: &[&str] = &["foo_bar", "x-y", "Player", "PLAYER", "a_very_long_subsystem_name_that_no_mpd_version_knows_about_but_a_future_one_might_introduce_some_day_long_long_long_long_long_long_long_long_long_long_long_long_long_long_long_long_long_long_long_long_long", "queue", "zone\r", "two words", "ünï", " lead", "a: b", "mixer "];
 
 fn names(r: &mut Rng) -> Vec<String> {
     let n = match r.below(6) {
